@@ -152,11 +152,11 @@ VARIANTS = [
     V( 'fowidth-flags-not-unified', DEVICE, "T_O.large = O_T.large = large", "T_O.large		= large", fires=[ 'K-FOWIDTH' ] ),
     V( 'fowidth-service-forced-small', DEVICE, "data.service = cls.FWD_OPLG_REQ if large else cls.FWD_OPEN_REQ", "data.service	= cls.FWD_OPEN_REQ", silent=[ 'K-FOWIDTH' ], why='a large request without a service code is then refused by the assertion - nothing inconsistent is emitted' ),
     V( 'fowidth-check-as-raise', DEVICE, "assert data.service == ( cls.FWD_OPLG_REQ if large else cls.FWD_OPEN_REQ ), \\\n \"Forward Open service code incompatible with T_O or O_T connection size\"", "if data.service != ( cls.FWD_OPLG_REQ if large else cls.FWD_OPEN_REQ ):\n                raise AssertionError( \"Forward Open service code incompatible with T_O or O_T connection size\" )", silent=[ 'K-FOWIDTH' ] ),
-    V( 'separators-only-at-loop-head', TNET, "# Still between TNET messages?  Ignored symbols may arrive in a later chunk than the end of the last message\n while ignore and source.sent == begun and source.peek() and source.peek() in ignore:\n next( source )\n begun = source.sent", "pass", fires=[ 'P-SEPARATORS' ], why='defect Y' ),
-    V( 'separators-unguarded-discard', TNET, "while ignore and source.sent == begun and source.peek() and source.peek() in ignore:", "while ignore and source.peek() and source.peek() in ignore:", fires=[ 'P-SEPARATORS' ] ),
+    V( 'separators-only-at-loop-head', TNET, "# Still between TNET messages?  Ignored symbols may arrive in a later chunk than the end of the last message\n while ignore and source.sent == begun and source.peek() is not None and source.peek() in ignore:\n next( source )\n begun = source.sent", "pass", fires=[ 'P-SEPARATORS' ], why='defect Y' ),
+    V( 'separators-unguarded-discard', TNET, "while ignore and source.sent == begun and source.peek() is not None and source.peek() in ignore:", "while ignore and source.peek() is not None and source.peek() in ignore:", fires=[ 'P-SEPARATORS' ] ),
     V( 'separators-marker-not-refreshed', TNET, "next( source )\n begun = source.sent\n", "next( source )\n", fires=[ 'P-SEPARATORS' ] ),
     V( 'separators-marker-is-zero', TNET, "begun = source.sent # No symbols of the current TNET string consumed yet", "begun			= 0", fires=[ 'P-SEPARATORS' ] ),
-    V( 'separators-if-guard-form', TNET, "while ignore and source.sent == begun and source.peek() and source.peek() in ignore:\n next( source )\n begun = source.sent", "if ignore and begun == source.sent:\n                    while source.peek() and source.peek() in ignore:\n                        next( source )\n                    begun	= source.sent", silent=[ 'P-SEPARATORS' ] ),
+    V( 'separators-if-guard-form', TNET, "while ignore and source.sent == begun and source.peek() is not None and source.peek() in ignore:\n next( source )\n begun = source.sent", "if ignore and begun == source.sent:\n                    while source.peek() is not None and source.peek() in ignore:\n                        next( source )\n                    begun	= source.sent", silent=[ 'P-SEPARATORS' ] ),
     V( 'gateway-kept-when-close-fails', GETATTR, "try:\n self.gateway.close()\n except Exception as cexc:\n # eg. the Forward Close of a connected gateway, on a connection that is already dead\n log.info( \"Closing EtherNet/IP CIP gateway %s failed: %s\", self.gateway, cexc )", "self.gateway.close()", fires=[ 'P-GATEWAY' ], why='defect Z' ),
     V( 'gateway-forgotten-in-finally', GETATTR, "try:\n self.gateway.close()\n except Exception as cexc:\n # eg. the Forward Close of a connected gateway, on a connection that is already dead\n log.info( \"Closing EtherNet/IP CIP gateway %s failed: %s\", self.gateway, cexc )", "try:\n                self.gateway.close()\n            finally:\n                self.gateway	= None", silent=[ 'P-GATEWAY' ] ),
     V( 'client-engine-reentered-without-input', CLIENT, "# re-entered without input; it awaits a symbol, and would detect no progress.\n return None", "if self.engine is None:\n                        return None", fires=[ 'P-ACT' ], why='defect AB' ),
@@ -220,6 +220,41 @@ VARIANTS = [
     V( 'reserved-level-unchecked', DOT, "if mine in self.__invalid_keys__ or mine.startswith( '__' ):\n # Neither as a value, nor as a (newly created) level\n raise KeyError( \"A dotdict cannot support insertion of item/attribute with name {!r}\".format( mine ))\n if rest:", "if not rest and ( mine in self.__invalid_keys__ or mine.startswith( '__' )):\n            raise KeyError( \"A dotdict cannot support insertion of item/attribute with name {!r}\".format( mine ))\n        if rest:", fires=[ 'T-RESERVED' ], why='defect AF' ),
     V( 'regex-dead-target-expanded', AUTO, "if states.get( nxt ) is None and states[pre].get( True ) is None:\n # Into a \"dead\" state, and no (live) wildcard to be told apart from at a\n # later symbol: reject at the first encoded symbol, consuming none of them.\n xformed = xformed[:1]", "pass", fires=[ 'X-FROMREGEX' ], why='defect AG' ),
     V( 'regex-dead-target-via-local', AUTO, "if states.get( nxt ) is None and states[pre].get( True ) is None:", "deadend		= nxt not in states\n                    if deadend and states[pre].get( True ) is None:", silent=[ 'X-FROMREGEX' ] ),
+    # ---- round 4
+    V( 'cpf-payload-carried-over', PARSER, "if 'input' in item:\n result += UINT.produce( len( item.input ))\n result += octets_encode( item.input )\n else:\n result += UINT.produce( 0 )", "if 'input' in item:\n                payload		= octets_encode( item.input )\n            result	       += UINT.produce( len( payload ))\n            result	       += payload", fires=[ 'L-FRESH' ] ),
+    V( 'cpf-payload-reset-each-item', PARSER, "if 'input' in item:\n result += UINT.produce( len( item.input ))\n result += octets_encode( item.input )\n else:\n result += UINT.produce( 0 )", "payload			= b''\n            if 'input' in item:\n                payload		= octets_encode( item.input )\n            result	       += UINT.produce( len( payload ))\n            result	       += payload", silent=[ 'L-FRESH' ] ),
+    V( 'fo-reply-size-before-pad', DEVICE, "app.tag_type= USINT.tag_type\n app.input = typed_data.produce( app )\n if len( app.input ) % 2:\n app.input += b'\\x00'\n app.size = len( app.input ) // 2 # words", "app.tag_type= USINT.tag_type\n                    app.input	= typed_data.produce( app )\n                    app.size	= len( app.input ) // 2 # words\n                    if len( app.input ) % 2:\n                        app.input  += b'\\x00'", fires=[ 'L-PADSIZE' ] ),
+    V( 'sstring-produced-utf8', PARSER, "encoded = value.string.encode( 'iso-8859-1' )\n # If .length doesn't exist or is None, set the length to the actual string length\n actual = len( encoded )\n desired = value.setdefault( 'length', actual )\n if desired is None:\n value.length = actual\n assert value.length < 1<<8,", "encoded			= value.string.encode( 'utf-8' )\n        actual			= len( encoded )\n        desired			= value.setdefault( 'length', actual )\n        if desired is None:\n            value.length 	= actual\n        assert value.length < 1<<8,", fires=[ 'L-TEXTCODEC' ] ),
+    V( 'sstring-codec-case-differs', PARSER, "encoded = value.string.encode( 'iso-8859-1' )\n # If .length doesn't exist or is None, set the length to the actual string length\n actual = len( encoded )\n desired = value.setdefault( 'length', actual )\n if desired is None:\n value.length = actual\n assert value.length < 1<<8,", "encoded			= value.string.encode( 'ISO-8859-1' )\n        actual			= len( encoded )\n        desired			= value.setdefault( 'length', actual )\n        if desired is None:\n            value.length 	= actual\n        assert value.length < 1<<8,", silent=[ 'L-TEXTCODEC' ] ),
+    V( 'typed-ulint-loop-into-lint', PARSER, "destination='.data', initializer=lambda **kwds: [],\n state=u64d )", "destination='.data',	initializer=lambda **kwds: [],\n                                                state=i64d )", fires=[ 'T-TYPEDLOOP' ] ),
+    V( 'sas-raw-octets-for-bytes', DEVICE, "fmt = att.parser.struct_format\n buf = bytearray( data.set_attribute_single.data )\n val = [ struct.unpack( fmt, buf[i:i+siz] )[0]\n for i in range( 0, len(buf), siz ) ]", "if siz == 1:\n                        val	= list( data.set_attribute_single.data )\n                    else:\n                        fmt	= att.parser.struct_format\n                        buf	= bytearray( data.set_attribute_single.data )\n                        val	= [ struct.unpack( fmt, buf[i:i+siz] )[0] for i in range( 0, len(buf), siz ) ]", fires=[ 'D-UNPACKFMT' ] ),
+    V( 'sas-unpack-inline-format', DEVICE, "fmt = att.parser.struct_format\n buf = bytearray( data.set_attribute_single.data )\n val = [ struct.unpack( fmt, buf[i:i+siz] )[0]\n for i in range( 0, len(buf), siz ) ]", "buf		= bytearray( data.set_attribute_single.data )\n                    val		= [ struct.unpack( att.parser.struct_format, buf[i:i+siz] )[0] for i in range( 0, len(buf), siz ) ]", silent=[ 'D-UNPACKFMT' ] ),
+    V( 'tagloop-path-survives', MAIN, "path,attribute = None,None\n if tag_address:", "attribute		= None\n        if tag_address:", fires=[ 'T-TAGLOOP' ] ),
+    V( 'opvalues-no-skipinitialspace', CLIENT, "[ val ], quotechar='\"', delimiter=',', quoting=csv.QUOTE_ALL, skipinitialspace=True )", "[ val.strip() ], quotechar='\"', delimiter=',' )", fires=[ 'T-OPVALUES' ] ),
+    V( 'opvalues-defaults-spelled-out', CLIENT, "[ val ], quotechar='\"', delimiter=',', quoting=csv.QUOTE_ALL, skipinitialspace=True )", "[ val ], skipinitialspace=True )", silent=[ 'T-OPVALUES' ] ),
+    V( 'iter-first-element-only', DOT, "isinstance( val, list ) and val and all( isinstance( subelm, dotdict_base ) for subelm in val ):", "isinstance( val, list ) and val and isinstance( val[0], dotdict_base ):", fires=[ 'D-ITER' ] ),
+    V( 'iter-all-other-name', DOT, "isinstance( val, list ) and val and all( isinstance( subelm, dotdict_base ) for subelm in val ):", "isinstance( val, list ) and val and all( isinstance( e, dotdict_base ) for e in val ):", silent=[ 'D-ITER' ] ),
+    V( 'merge-pieces-logged-as-list', MODBUS, "for r in shatter( base, length, limit=limit ):\n log.debug( \"Emitting: %10r==>%10r w/limit %r\" % ((base,length), r, limit))\n yield r", "pieces		= shatter( base, length, limit=limit )\n    log.debug( \"Emitting: %r\", list( pieces ))\n    for r in pieces:\n        yield r", fires=[ 'M-PIECES' ] ),
+    V( 'merge-pieces-bound-once', MODBUS, "for r in shatter( base, length, limit=limit ):\n log.debug( \"Emitting: %10r==>%10r w/limit %r\" % ((base,length), r, limit))\n yield r", "pieces		= shatter( base, length, limit=limit )\n    for r in pieces:\n        yield r", silent=[ 'M-PIECES' ] ),
+    V( 'encoder-latin1-below-0x100', AUTO, "type_unicode_encoder = lambda s: ( b for b in s.encode( 'utf-8' ))", "type_unicode_encoder		= lambda s: ( b for b in s.encode( 'latin-1' if s < u'\\u0100' else 'utf-8' ))", fires=[ 'X-ENCODER' ] ),
+    V( 'encoder-utf8-spelled-otherwise', AUTO, "type_unicode_encoder = lambda s: ( b for b in s.encode( 'utf-8' ))", "type_unicode_encoder		= lambda s: ( c for c in bytearray( s.encode( 'utf-8' )))", silent=[ 'X-ENCODER' ] ),
+    V( 'attrkeys-count-as-next-id', LOGIX, "att = int( sorted( instance.attribute, key=misc.natural )[-1] ) if instance.attribute else 0\n att += 1", "att			= len( instance.attribute ) or 1", fires=[ 'T-ATTRKEYS' ] ),
+    V( 'closure-member-appended-before-parse', DEVICE, "req.input = reqdata[beg:end]\n source = peekable( req.input )", "req.input	= reqdata[beg:end]\n                request.append( req )\n                source		= peekable( req.input )", fires=[ 'P-CLOSURE' ] ),
+    V( 'refuse-path-sliced-before-test', UCMM, "portlink,target = find_route()", "portlink,target	= find_route()\n                    route_path		= route_path[1:] if portlink else route_path", fires=[ 'D-REFUSE' ] ),
+    V( 'separators-marker-before-head-discard', TNET, "while ignore and source.peek() is not None and source.peek() in ignore:\n next( source )\n data = cpppo.dotdict()\n started = cpppo.timer() # When did we start the current attempt at a TNET string?\n begun = source.sent # No symbols of the current TNET string consumed yet", "begun		= source.sent\n            while ignore and source.peek() is not None and source.peek() in ignore:\n                next( source )\n            data		= cpppo.dotdict()\n            started		= cpppo.timer()", fires=[ 'P-SEPARATORS' ] ),
+    V( 'server-msg-carried-over', MAIN, "msg = None\n while msg is None and not stats.eof:", "while msg is None and not stats.eof:", fires=[ 'P-ACT' ] ),
+    V( 'bundle-split-queues-twice', CLIENT, "requests = []\n requests_paths = {}", "requests	= [ (descr,op,req) ]\n                    requests_paths	= {}", fires=[ 'P-BUNDLE' ] ),
+    V( 'gateway-decorator-returns-generator', GETATTR, "if inspect.isgeneratorfunction( function ):", "if False:", fires=[ 'P-GATEWAY' ], why='defect AH' ),
+    V( 'separators-peek-truthiness', TNET, "while ignore and source.peek() is not None and source.peek() in ignore:", "while ignore and source.peek() and source.peek() in ignore:", fires=[ 'P-SEPARATORS' ], why='defect AI' ),
+    V( 'snapshot-live-list-returned', DEVICE, "return [ self.value ] if self.scalar else self.value[key]", "if self.scalar:\n                return [ self.value ]\n            if key.indices( len( self )) == (0, len( self ), 1):\n                return self.value\n            return self.value[key]", fires=[ 'R-SNAPSHOT' ] ),
+    V( 'snapshot-scalar-branch-split', DEVICE, "return [ self.value ] if self.scalar else self.value[key]", "if self.scalar:\n                return [ self.value ]\n            return self.value[key]", silent=[ 'R-SNAPSHOT' ] ),
+    V( 'getitem-foreign-subscription-unwrapped', DOT, "try:\n return getter( rest )\n except KeyError:\n raise\n except Exception as exc:\n # eg. a list or str asked for a name: the path does not exist\n raise KeyError( 'cannot get \"%s\" in \"%s\" (%s: %s)' % ( rest, mine, exc.__class__.__name__, exc ))", "return getter( rest )", fires=[ 'D-DELEGATE' ], why='defect AJ' ),
+    V( 'pop-raw-level-lookup', DOT, "target = self.__getitem__( mine ) # as for lookup; 'mine' may be indexed, eg. 'l[0]'", "target		= super( dotdict_base, self ).__getitem__( mine )", fires=[ 'D-DELEGATE' ], why='defect AJ' ),
+    V( 'ownpath-check-removed', DEVICE, "clid,inid,_ = resolve( data.path )\n assert clid == self.class_id and inid == self.instance_id, \\\n \"Path %r processed by wrong Object %r\" % ( data.path['segment'], self )\n data.status = 0x08", "data.status	= 0x08", fires=[ 'D-OWNPATH' ], why='defect AK' ),
+    V( 'ownpath-check-only-class', DEVICE, "assert clid == self.class_id and inid == self.instance_id, \\\n \"Path %r processed by wrong Object %r\" % ( data.path['segment'], self )\n data.status = 0x08", "assert clid == self.class_id, \"Path %r processed by wrong Object %r\" % ( data.path['segment'], self )\n                data.status	= 0x08", fires=[ 'D-OWNPATH' ] ),
+    V( 'replybit-set-before-unrecognized', DEVICE, "else:\n raise RequestUnrecognized( \"Unrecognized Service Request\" )", "else:\n                data.service   |= 0x80\n                raise RequestUnrecognized( \"Unrecognized Service Request\" )", fires=[ 'P-REPLYBIT' ] ),
+    V( 'fowidth-decoder-guesses-size-class', DEVICE, "parameters = defaults.Connection( **dict( data[pathsrc], large=self.lrg ))", "parameters		= defaults.Connection( **data[pathsrc] )", fires=[ 'K-FOWIDTH' ], why='defect AL' ),
+    V( 'fowidth-decoder-large-keyword', DEVICE, "parameters = defaults.Connection( **dict( data[pathsrc], large=self.lrg ))", "parameters		= defaults.Connection( large=self.lrg, **data[pathsrc] )", silent=[ 'K-FOWIDTH' ] ),
     V( 'pathstop-equivalent', DEVICE, "or not attribute #   or no Attribute desired (must return None)", "or attribute in ( False, None, 0 ) or not attribute", silent=[ 'D-PATHSTOP' ] ),
     V( 'keypass-normalised', MAIN, "def __setitem__( self, key, value ):\n super( Attribute_print, self ).__setitem__( key, value )", "def __setitem__( self, key, value ):\n            if isinstance( key, slice ):\n                key	= slice( *key.indices( len( self )))\n            super( Attribute_print, self ).__setitem__( key, value )", fires=[ 'K-KEYPASS' ] ),
     V( 'route-checks-outside-try', UCMM, "rsp,ela = client.await_response( conn, timeout=timeout )\n assert rsp, \\", "rsp,ela	= client.await_response( conn, timeout=timeout )\n                                assert True, \\", fires=[ 'P-ROUTE' ] ),
